@@ -107,6 +107,7 @@ type trCtx struct {
 	strVars         map[string]bool // Go variables of type `string` (range yields runes)
 
 	assignCount map[string]int         // how often a Go variable has been assigned so far (text-matched parameters)
+	opaqueFrom  map[string]string      // opaque variable ↦ the effect / call it is a result of
 	allowBreak  bool                   // while the state of a loop is computed: `break` is not an error
 	loopBreak   func() (string, error) // inside a loop with `break`: the state with the flag set
 	recOf       map[string]*trParam    // loop variables over a tyRecList parameter
